@@ -505,7 +505,21 @@ class Interp:
                 return (self.elem_from_term(kinds[0], smt.tup2_0(t)), self.elem_from_term(kinds[1], smt.tup2_1(t)))
         if lst_elem.startswith("ref:"):
             return self.world.deref(self, lst_elem[4:], t)
+        if lst_elem.startswith("rec:"):
+            # a dict record with fixed string keys, stored as the tuple of its fields: rec:interval=int,value=val
+            fs = [f.split("=") for f in lst_elem[4:].split(",")]
+            if len(fs) == 2:
+                return DictObj({fs[0][0]: self.elem_from_term(fs[0][1], smt.tup2_0(t)), fs[1][0]: self.elem_from_term(fs[1][1], smt.tup2_1(t))})
         raise Unsupported(f"element kind {lst_elem}")
+
+    def elem_to_val(self, lst_elem, v):
+        """encode a value stored into a symbolic list according to the list's declared element kind"""
+        if lst_elem.startswith("rec:"):
+            fs = [f.split("=") for f in lst_elem[4:].split(",")]
+            if not (isinstance(v, DictObj) and not v.symbolic and set(v.d) == {f[0] for f in fs}):
+                raise Unsupported(f"record expected for element kind {lst_elem}: {v!r}")
+            return self.to_val(tuple(v.d[f[0]] for f in fs))
+        return self.to_val(v)
 
     # -- truthiness -------------------------------------------------------------
     def truth_term(self, v):
